@@ -168,6 +168,24 @@ def rcRowsRaw (m : RcMasks) (v : Nat) : List (String × Nat) :=
 def rcRows (t : RcTables) (v : Nat) : List (String × Nat) :=
   (rcRowsRaw t.masks v).mergeSort (fun a b => a.2 ≥ b.2)
 
+/-- the free-text details `attributes()` attaches to its rows, up to the colon: (row name, text); `none` = KeyError -/
+def rcRowDetails (t : RcTables) (v : Nat) : Option (List (String × String)) :=
+  let m := t.masks
+  if v = 0 then some [] else
+  if bitsUnset v m.tpm12 then some [("tpm12_signifier", "TPM 1.2")]
+  else if !bitsSet v m.fmt1 then
+    let sev := if bitsSet v m.fmt1Warning then "Warning" else "Error"
+    if bitsUnset v m.fmt1Vendor then
+      (t.name (if bitsSet v m.fmt1Warning then .fmt0Warn else .fmt0Err) (v &&& m.fmt1Code)).map fun n =>
+        [("version", "TPM 2.0"), ("severity", sev), ("code", n)]
+    else some [("version", "TPM 2.0"), ("severity", sev)]
+  else
+    let num :=
+      if bitsSet v m.fmt0Param then ("parameterNumber", s!"Parameter No. {(v &&& m.fmt0ParamNum) >>> m.shiftParam}")
+      else if bitsSet v m.fmt0Session then ("sessionNumber", s!"Session No. {(v &&& m.fmt0SessionNum) >>> m.shiftSession}")
+      else ("handleNumber", s!"Handle No. {(v &&& m.fmt0HandleNum) >>> m.shiftHandle}")
+    (t.name .fmt1 (v &&& m.fmt0Code)).map fun n => [num, ("code", n)]
+
 /-! ## formatting of typed integers -/
 
 /-- `format(T(x))` / `f"{T(x)}"` (`rc`: supplied by the caller since it needs the RC tables) -/
